@@ -168,7 +168,7 @@ func (e *kdfEnv) runE2E(k e2eCase, rep int) {
 	c.Eval(1)
 	c.Count("e2e_handshakes", 1)
 	if cpanic != nil {
-		c.Violation("kdf:e2e:"+cpanic.Key, cpanic.Value+"\n"+cpanic.Stack, caseID, input)
+		c.Violation("kdf:e2e:"+panicKey(cpanic), cpanic.Value+"\n"+cpanic.Stack, caseID, input)
 		return
 	}
 
